@@ -461,6 +461,65 @@ class BodyGen(TopGen):
         return lines, "T %d %s" % (len(terms), " ".join(terms))
 
 
+class UploadGen(TopGen):
+    """upload-shaped types: `*binding.File` / `[]*binding.File` fields (`form:"doc"`) at the top level, in embedded
+    value structs and inside nested structs (by value and by pointer), next to ordinary value fields. Sources
+    that carry no files (everything but a multipart form) leave file fields alone: the Ty term presents them
+    as fields the bind does not see (exported = 0), so they must come out exactly as they went in."""
+
+    def gen_struct(self, depth, embedded=False):
+        r = self.r
+        lines, terms = [], []
+        nf = r.rng(2, 5) if depth == 0 else r.rng(1, 3)
+        have_file = False
+        for j in range(nf + 1):
+            i = self.new_field_id()
+            k = r.n(100)
+            if j == 0:
+                # a value field with all tags: the struct always answers to every source
+                p = r.pick(PRIM_W)
+                tv = {t: self.key_style(i) for t in TAGS}
+                name = "F%d" % i
+                dflt = ReqGen.nonzero_default(self, p) if r.chance(1, 3) else ""
+                lines.append(self.field_src(name, GO[p], tv, dflt))
+                terms.append(self.field_term(name, True, False, tv, dflt, "P " + p))
+                continue
+            if depth < 2 and k < 30:
+                self.sid += 1
+                mysid = self.sid
+                embed = k < 8
+                sl, st = self.gen_struct(depth + 1, embed)
+                tname = "T%dS%d" % (self.k, mysid)
+                self.decls.append("type %s struct {\n%s\n}\n" % (tname, "\n".join(sl)))
+                isptr = (not embed) and r.chance(1, 2)        # never an embedded pointer around a file field
+                gotype = ("*" if isptr else "") + tname
+                ty = ("R " if isptr else "") + st
+                if embed:
+                    lines.append(self.field_src("", gotype, {}, ""))
+                    terms.append(self.field_term(tname, True, True, {}, "", ty))
+                else:
+                    tv = {t: self.key_style(i) for t in TAGS}
+                    name = "N%d" % i
+                    lines.append(self.field_src(name, gotype, tv, ""))
+                    terms.append(self.field_term(name, True, False, tv, "", ty))
+                continue
+            if k < 65 or (j == nf and not have_file):
+                have_file = True
+                many = r.chance(1, 3)
+                gotype = "[]*binding.File" if many else "*binding.File"
+                tv = {"form": self.key_style(i)}
+                name = "U%d" % i
+                lines.append(self.field_src(name, gotype, tv, ""))
+                terms.append(self.field_term(name, False, False, tv, "", "P s"))
+                continue
+            gotype, ty, p, kind = self.gen_leaf()
+            name = "F%d" % i
+            tv = self.tags_for(i, True, kind in ("prim", "ptr", "slice"))
+            lines.append(self.field_src(name, gotype, tv, ""))
+            terms.append(self.field_term(name, True, False, tv, "", ty))
+        return lines, "T %d %s" % (len(terms), " ".join(terms))
+
+
 def body_closures(k):
     return ("\t\tJSON: func(b []byte, o ...binding.Option) (any, error) { return binding.JSON[T%d](b, o...) },\n"
             "\t\tJSONReader: func(r io.Reader, o ...binding.Option) (any, error) { return binding.JSONReader[T%d](r, o...) },\n"
@@ -479,9 +538,10 @@ def main():
     nnamed = int(sys.argv[3]) if len(sys.argv) > 3 else 60
     nopq = int(sys.argv[4]) if len(sys.argv) > 4 else 60
     nbody = int(sys.argv[5]) if len(sys.argv) > 5 else 40
+    nup = int(sys.argv[6]) if len(sys.argv) > 6 else 20
     r = Rng(20260926)
     out = []
-    out.append("// Code generated by gen_types.py %d %d %d %d %d; DO NOT EDIT.\n" % (n, nreq, nnamed, nopq, nbody))
+    out.append("// Code generated by gen_types.py %d %d %d %d %d %d; DO NOT EDIT.\n" % (n, nreq, nnamed, nopq, nbody, nup))
     out.append("package main\n")
     out.append('import (\n\t"io"\n\t"net"\n\t"net/http"\n\t"net/url"\n\t"regexp"\n\t"time"\n\n\t"rivaas.dev/binding"\n)\n')
     out.append("var _ = time.Second\n")
@@ -532,6 +592,15 @@ def main():
         out.extend(g.decls)
         out.append("type T%d struct {\n%s\n}\n" % (k, "\n".join(lines)))
         entries.append((k, term))
+    # upload-shaped types, sixth stream
+    r6 = Rng(20261001)
+    ubase = bbase + nbody
+    for k in range(ubase, ubase + nup):
+        g = UploadGen(r6, k)
+        lines, term = g.gen_struct(0)
+        out.extend(g.decls)
+        out.append("type T%d struct {\n%s\n}\n" % (k, "\n".join(lines)))
+        entries.append((k, term))
     out.append("var corpus = []typeEntry{")
     for k, term in entries:
         out.append("\t{Name: \"T%d\", New: func() any { return new(T%d) },\n"
@@ -549,7 +618,7 @@ def main():
                    "\t\tBindWith: func(b *binding.Binder, o ...binding.Option) (any, error) { return binding.BindWith[T%d](b, o...) },\n"
                    "%s"
                    "\t\tTy: %s},"
-                   % ((k,) * 14 + (body_closures(k) if k >= bbase else "", '"' + term + '"',)))
+                   % ((k,) * 14 + (body_closures(k) if bbase <= k < ubase else "", '"' + term + '"',)))
     out.append("}\n")
     sys.stdout.write("\n".join(out))
 
